@@ -167,6 +167,9 @@ def main(argv=None):
                 continue
             _merge(total, res)
             done += 1
+            if len(jobs) >= 20 and done % max(1, len(jobs) // 10) == 0 and time.time() - t0 > 120:
+                sys.stderr.write('progress %s %s: %d/%d units after %.0fs\n' % (prop, tier, done, len(jobs), time.time() - t0))
+                sys.stderr.flush()
             if time.time() - t0 > budget and done < len(jobs):
                 capped = True
                 break
